@@ -143,3 +143,14 @@ Theorem C01_lcm_solve_is_the_backward_recursion_of_its_components :
     params.
 Proof. exact lcm_solve_recursion. Qed.
 Print Assumptions C01_lcm_solve_is_the_backward_recursion_of_its_components.
+
+(* the keyword arguments of the component constructors that are the same in every period *)
+Theorem C01_glue_fixed_arguments :
+  create_state_choice_space_fixed_args = ["model=_mod"; "jit_filter=False"]%string /\
+  get_utility_and_feasibility_function_fixed_args = ["model=_mod"; "name_of_values_on_grid='vf_arr'"]%string /\
+  create_compute_conditional_continuation_value_fixed_args = ["continuous_choice_variables=list(_choice_grids)"]%string /\
+  create_compute_conditional_continuation_policy_fixed_args = ["continuous_choice_variables=list(_choice_grids)"]%string /\
+  get_solve_discrete_problem_fixed_args
+  = ["random_utility_shock_type=_mod.random_utility_shocks"; "variable_info=_mod.variable_info"]%string.
+Proof. repeat split; reflexivity. Qed.
+Print Assumptions C01_glue_fixed_arguments.
